@@ -138,10 +138,39 @@ def run(chk, tier):
     chk.fn_seen(f['path'])
     g = CFG(f)
     heads = sorted({h for (_, h) in g.back_edges()})
-    names = {l['name']: i for i, l in enumerate(f['locals']) if l['name']}
+    # roles by type and data flow, not by name: among the user locals the loop body assigns there is one byte-slice cursor, one u32
+    # accumulator and one usize index
+    names = {}
+    if len(heads) == 1:
+        body_blocks = {heads[0]}
+        for (src_, hdr_) in g.back_edges():
+            stack_ = [src_]
+            while stack_:
+                x_ = stack_.pop()
+                if x_ in body_blocks:
+                    continue
+                body_blocks.add(x_)
+                stack_.extend(g.pred[x_])
+        assigned = set()
+        for bi_ in body_blocks:
+            for st__ in f['blocks'][bi_]['stmts']:
+                if 'lhs' in st__ and not st__['lhs']['p']:
+                    assigned.add(st__['lhs']['l'])
+            t__ = f['blocks'][bi_]['term']
+            if t__['k'] == 'call' and not t__['dest']['p']:
+                assigned.add(t__['dest']['l'])
+        user = [l_ for l_ in sorted(assigned) if f['locals'][l_]['name'] and l_ > f['argc']]
+        by_ty = {}
+        for l_ in user:
+            by_ty.setdefault(f['locals'][l_]['ty'], []).append(l_)
+        cur = [l_ for ty_, ls in by_ty.items() if re.fullmatch(r"&(?:'\w+ )?\[u8\]", ty_) for l_ in ls]
+        acc = by_ty.get('u32', [])
+        idx = by_ty.get('usize', [])
+        if len(cur) == 1 and len(acc) == 1 and len(idx) == 1 and f['argc'] == 2:
+            names = {'data': 1, 'ignore_word': 2, 'cur_data': cur[0], 'sum': acc[0], 'i': idx[0]}
     need = ['data', 'ignore_word', 'cur_data', 'sum', 'i']
     if len(heads) != 1 or any(n not in names for n in need):
-        chk.fail('R3', 'shape', fn_loc(f), 'sum_be_words: expected one loop over a cursor `cur_data`, an index `i` and an accumulator `sum` (loops %s, locals %s)' % (heads, sorted(names)), key='R3|shape')
+        chk.fail('R3', 'shape', fn_loc(f), 'sum_be_words: expected one loop whose body advances one byte-slice cursor, one usize word index and one u32 accumulator (loops %s)' % (heads,), key='R3|shape')
     else:
         head = heads[0]
         class BodyEngine(RangeEngine):
